@@ -68,6 +68,12 @@ func (c *conn) runStmt(st ast.StmtNode, args []Value) (*result, error) {
 		return nil, myErr(ErXaerRmfail, "XAER_RMFAIL: The command cannot be executed when global transaction is in the  IDLE state")
 	}
 	inXA := c.tx != nil && c.tx.xid != ""
+	if c.tx != nil && c.tx.readOnly {
+		switch st.(type) {
+		case *ast.InsertStmt, *ast.UpdateStmt, *ast.DeleteStmt, *ast.CreateTableStmt, *ast.DropTableStmt, *ast.TruncateTableStmt:
+			return nil, myErr(1792, "Cannot execute statement in a READ ONLY transaction.")
+		}
+	}
 	switch x := st.(type) {
 	case *ast.SelectStmt:
 		return c.doSelect(x, args)
